@@ -79,11 +79,13 @@ func runC09(r *Run, verifDir string) {
 				}
 			}
 		case *ssa.BinOp:
-			if x.Op == token.NEQ && !dc.outcome {
-				// int(req.Header.BatchCount) != len(req.BatchItem)
-				if y, ok := lenOperand(x.Y); ok && reqField(y, "BatchItem") {
-					if cv, ok := x.X.(*ssa.Convert); ok && reqField(cv.X, "Header", "BatchCount") {
-						countOK = true
+			if (x.Op == token.NEQ && !dc.outcome) || (x.Op == token.EQL && dc.outcome) {
+				// int(req.Header.BatchCount) != len(req.BatchItem), either way round
+				for _, pr := range [][2]ssa.Value{{x.X, x.Y}, {x.Y, x.X}} {
+					if y, ok := lenOperand(pr[1]); ok && reqField(y, "BatchItem") {
+						if cv, ok := pr[0].(*ssa.Convert); ok && reqField(cv.X, "Header", "BatchCount") {
+							countOK = true
+						}
 					}
 				}
 			}
